@@ -1298,6 +1298,7 @@ class Substitution(Rule):
             ctx2.add_condition(expr.Op("<", Var(e.var), e.upper))
         body = normalize(e.body / dfx, ctx2.get_conds())
         body_subst = body.replace(var_subst, var_name)
+        gu = None
         if e.var not in body_subst.get_vars():
             # Substitution is able to clear all x in original integrand
             self.f = body_subst
@@ -1328,6 +1329,22 @@ class Substitution(Rule):
                 upper = self.var_subst
                 upper = limits.reduce_inf_limit(upper.subst(e.var, e.upper - (1 / x)), e.var, ctx.get_conds())
                 upper = full_normalize(upper, ctx)
+            if gu is not None:
+                # x was replaced by a solution x = gu(u) of the equation. This must be
+                # the branch of the inverse on the interval of integration: it has to
+                # map the new endpoints back to the original ones.
+                for old_bd, new_bd in ((e.lower, lower), (e.upper, upper)):
+                    if old_bd.is_inf() or new_bd.is_inf():
+                        continue
+                    back = gu.subst(self.var_name, new_bd)
+                    if not (back.is_evaluable() and old_bd.is_evaluable()):
+                        continue
+                    try:
+                        diff = abs(expr.eval_expr(back) - expr.eval_expr(old_bd))
+                    except (ValueError, ZeroDivisionError, TypeError, OverflowError):
+                        continue
+                    if diff > 1e-9:
+                        raise AssertionError("Substitution: solution %s does not map %s back to %s" % (gu, new_bd, old_bd))
             if lower.is_evaluable() and upper.is_evaluable() and expr.eval_expr(lower) > expr.eval_expr(upper):
                 return normalize(Integral(self.var_name, upper, lower, Op("-", self.f)), ctx.get_conds())
             else:
